@@ -58,7 +58,10 @@ def run(rep, tier, rng):
             rep.violation({"what": "observable evaluation trace differs when an unrelated form fails",
                            "program": prog, "ticks_with_fault": tf[:50], "ticks_without": tb[:50]})
     # the whole matrix of wrong-typed arguments to builtins, each form alone on a shared interpreter (an error leaves it usable)
-    matrix = P.type_fault_matrix()
+    tmatrix, imatrix = P.type_fault_matrix(), P.index_fault_matrix()
+    matrix = tmatrix + imatrix
+    kind_of = {f: "type" for f in tmatrix}
+    kind_of.update({f: "vectorIndex" for f in imatrix})
     mcases = [("m%d" % (i // 200), "prog", ["std"] + matrix[i:i + 200] + ["(+ 1 2)"]) for i in range(0, len(matrix), 200)]
     mi, mm = C.run_hx(mcases), C.run_driver(mcases)
     for cid, _, f in mcases:
@@ -68,10 +71,11 @@ def run(rep, tier, rng):
             rep.count()
             rep.nontrivial(("matrix", form))
             g = a[j] if j < len(a) else "?"
-            want = "V i:3" if j == len(forms) - 1 else "E type"
+            want = "V i:3" if j == len(forms) - 1 else "E " + kind_of[form]
             if not (g == want or g.startswith(want + " ")):
-                rep.violation({"what": "a builtin given an argument of the wrong type does not stop with a type error"
-                                       if want == "E type" else "a form after the failing ones is not evaluated normally",
+                rep.violation({"what": "a builtin given an argument of the wrong type does not stop with a type error" if want == "E type" else
+                                       "a vector index outside the vector does not stop with an index error" if want == "E vectorIndex" else
+                                       "a form after the failing ones is not evaluated normally",
                                "form": form, "expected": want, "implementation": g, "model": b[j] if j < len(b) else "?"})
             elif j < len(b) and R.norm_result(g) != R.norm_result(b[j]):
                 rep.violation({"broken": "correspondence Prim (argument checks) <-> base.rs", "form": form, "implementation": g,
@@ -87,7 +91,7 @@ def main(tier, seed):
                        "apply, ticking sub-expressions) with ONE injected faulty form: 8 fault kinds x 6 calling contexts "
                        "(direct, tail, nested tail if, apply, inside a library procedure's callback, operand); plus the complete matrix of "
                        "wrong-typed arguments (every numeric builtin x arity x position x 4 offending values x direct/apply/map, pair and "
-                       "vector accessors); distinct = "
+                       "vector accessors) and of out-of-range vector indices (lengths 0-3, every index just outside on either side); distinct = "
                        "distinct (kind, context, faulty form) triples")
     ok = C.standard_proof_phase(rep, MODULES, directed_search=lambda r: run(r, tier, rng))
     if ok:
